@@ -97,6 +97,13 @@ def run(cx):
         if not ok:
             inst.violation(pn.path, "PendingPacket.data", "PendingPacket::new does not store the packet data it is given")
     ack_loop_shape(cx, "C20.d")
+    # "zero once everything has been acknowledged": every ack frame reaches PacketSender::acknowledge with the
+    # frame's packet window base, whatever the frame window does (an ack that only moves the packet window —
+    # the reply to a resynchronising sync — must still release the bytes)
+    from props.C11 import ack_frame_applies_both
+    ack_frame_applies_both(cx, "C20.e")
+    from props.shared import ack_processing_presence
+    ack_processing_presence(cx, "C20.f")
     with cx.instance("C20.c", "T7 SHAPE", "send_buffer_size forwards PacketSender.total_size under Active and returns 0 otherwise", floor=4) as inst:
         t = R.body(PS + "total_size")
         e = show(t.local_expr(0))
